@@ -14,7 +14,7 @@ import (
 func init() {
 	register(&propDef{
 		ID:          "C08",
-		Explanation: "Equality of the generated programs for all spellings is not decided. Decides three agreement clauses between parser, formatter and generator: R1 decode/encode symmetry — every parser-node field that the parser fills with a decoded value (html.UnescapeString) is re-encoded (html.EscapeString) wherever a formatter method (Write/String of the node) emits it; R2 classifier agreement — over the finite domain {node kinds} × {block element?} × {indented children?}, evaluated from the two type switches: wherever the formatter's block classifier (a forced line break before the node) is true, the generator's inline-or-text classifier (whitespace before the node is rendered) must be false, otherwise formatting inserts a space into the rendered output; R3 field coverage — every field of a parser node type that the generator reads in order to emit code is also read by that node's own formatter methods (a field the formatter drops is lost from the formatted file); R4 content fields (string fields of parser nodes outside Go expressions that the generator reads, directly or through node methods) are written back verbatim by the formatter: never assigned a non-constant value, never passed through a string-transforming strings.* call in a function that writes (predicates that fold case before a lookup are not writers), and no write is guarded by a test of such a field's text (strings.* / len), which would add bytes next to the content for some contents only; R5 every child list taken from a parser node is stripped of whitespace-only nodes before the generator renders it (the formatter adds and removes such nodes freely). R6 the import rewriter that templ fmt runs never inserts an import without its name (no astutil.AddImport; name and path of every Add/DeleteNamedImport come from one import spec, and the splitter reads the spec's alias); R7 a boolean field the parser derives from a sibling string field (quote choice from the attribute value) is derived from that field's final value — no later assignment to the string without recomputing the flag; R9 a flag that records that a construct spans several lines is decided after the whitespace in front of the closing delimiter was consumed; R8 a formatter loop that writes the lines of a Go expression with an indentation prefix also has a path that writes a line unprefixed (continuation lines of raw string literals are part of the string's value). R10 the formatter command parses the text it read and its file readers return what they read (no CRLF/BOM/whitespace normalisation in front of the parser: a CRLF inside a raw Go string or <pre> is part of what is rendered). NOT decided: the formatter's whitespace decisions on concrete files, gofmt-level layout of embedded Go. R11 `templ fmt` writes the formatter's output as it is (no text pass over the whole file); R12 inside <script> a Go block is written together with the text that followed it on every path. R13 in the formatter's loops over branches (else-if arms, switch cases) every non-failing path of a round writes the branch's expression — a branch is never left out because it has no children. R14 a node derived from an if-expression keeps all of its children (then, every else-if, else). R15 the generator decides white space from the parsed node alone and does not read formatter-side fields. R16 the Go file name handed to the import fixer keeps the directory of the template. R7 also: a flag of a parser node is not decided on the pre-image of a transformed text that the node then stores (the quote choice taken before html.UnescapeString), whether the flag travels in a local, in another struct or as a second result of a helper. R17 (= C09.R13) the raw-string probe is read position by position (a line against the shifted line at the same index). R18 where the generator cuts a template's parameter text the separator is punctuation alone or white space alone (gofmt, which `templ fmt` applies, inserts white space next to punctuation). R19 the formatter's Write methods (and the functions they call) strip leading white space only from an expression's text as a whole, never from one line of split Go text: a continuation line of a multi-line raw string owns its indentation, and the gofmt probe that would tell cannot run on text gofmt rejects. R20 what goes into the hash of a script's JavaScript name is text the formatter keeps verbatim (not the parameter list, which gofmt re-spaces); R21 the forced-break predicate (the func(Node) bool that names br / hr) reads nothing of the element but its name.",
+		Explanation: "Equality of the generated programs for all spellings is not decided. Decides three agreement clauses between parser, formatter and generator: R1 decode/encode symmetry — every parser-node field that the parser fills with a decoded value (html.UnescapeString) is re-encoded (html.EscapeString) wherever a formatter method (Write/String of the node) emits it; R2 classifier agreement — over the finite domain {node kinds} × {block element?} × {indented children?}, evaluated from the two type switches: wherever the formatter's block classifier (a forced line break before the node) is true, the generator's inline-or-text classifier (whitespace before the node is rendered) must be false, otherwise formatting inserts a space into the rendered output; R3 field coverage — every field of a parser node type that the generator reads in order to emit code is also read by that node's own formatter methods (a field the formatter drops is lost from the formatted file); R4 content fields (string fields of parser nodes outside Go expressions that the generator reads, directly or through node methods) are written back verbatim by the formatter: never assigned a non-constant value, never passed through a string-transforming strings.* call in a function that writes (predicates that fold case before a lookup are not writers), and no write is guarded by a test of such a field's text (strings.* / len), which would add bytes next to the content for some contents only; R5 every child list taken from a parser node is stripped of whitespace-only nodes before the generator renders it (the formatter adds and removes such nodes freely). R6 the import rewriter that templ fmt runs never inserts an import without its name (no astutil.AddImport; name and path of every Add/DeleteNamedImport come from one import spec, and the splitter reads the spec's alias); R7 a boolean field the parser derives from a sibling string field (quote choice from the attribute value) is derived from that field's final value — no later assignment to the string without recomputing the flag; R9 a flag that records that a construct spans several lines is decided after the whitespace in front of the closing delimiter was consumed; R8 a formatter loop that writes the lines of a Go expression with an indentation prefix also has a path that writes a line unprefixed (continuation lines of raw string literals are part of the string's value). R10 the formatter command parses the text it read and its file readers return what they read (no CRLF/BOM/whitespace normalisation in front of the parser: a CRLF inside a raw Go string or <pre> is part of what is rendered). NOT decided: the formatter's whitespace decisions on concrete files, gofmt-level layout of embedded Go. R11 `templ fmt` writes the formatter's output as it is (no text pass over the whole file); R12 inside <script> a Go block is written together with the text that followed it on every path. R13 in the formatter's loops over branches (else-if arms, switch cases) every non-failing path of a round writes the branch's expression — a branch is never left out because it has no children. R14 a node derived from an if-expression keeps all of its children (then, every else-if, else). R15 the generator decides white space from the parsed node alone and does not read formatter-side fields. R16 the Go file name handed to the import fixer keeps the directory of the template. R7 also: a flag of a parser node is not decided on the pre-image of a transformed text that the node then stores (the quote choice taken before html.UnescapeString), whether the flag travels in a local, in another struct or as a second result of a helper. R17 (= C09.R13) the raw-string probe is read position by position (a line against the shifted line at the same index). R18 where the generator cuts a template's parameter text the separator is punctuation alone or white space alone (gofmt, which `templ fmt` applies, inserts white space next to punctuation). R19 the formatter's Write methods (and the functions they call) strip leading white space only from an expression's text as a whole, never from one line of split Go text: a continuation line of a multi-line raw string owns its indentation, and the gofmt probe that would tell cannot run on text gofmt rejects. R20 what goes into the hash of a script's JavaScript name is text the formatter keeps verbatim (not the parameter list, which gofmt re-spaces); R21 the forced-break predicate (the func(Node) bool that names br / hr) reads nothing of the element but its name. R22 (= C09.R19) where the formatter computes a flag per line of gofmt's output (F[i] = A[i] != B[i]) and hands lines and flags on as a pair, the loop visits every line handed on and both slices are cut at the same offset.",
 		Assumptions: []string{"atoms of the classifiers (IsBlockElement, IndentChildren) are independent booleans"},
 		Trusted:     []string{"go/types", "x/tools go/packages"},
 		Run:         runC08,
@@ -161,6 +161,7 @@ func runC08(c *Ctx) {
 	generatorDoesNotAskTheFormatter(c, "C08.R15")
 	goFileNameKeepsItsDirectory(c, "C08.R16")
 	shiftProbeOnWholeSource(c, "C08.R17")
+	flagsParallelToLines(c, "C08.R22")
 	generatorCutsGoTextOnPunctuationOnly(c, "C08.R18")
 	linesOfGoTextKeepTheirOwnIndent(c, "C08.R19")
 	scriptNameHashesVerbatimTextOnly(c, "C08.R20")
